@@ -365,9 +365,23 @@ Definition seeded_e2e (v : val) : val :=
   | None => L []
   end.
 
+(** third stream (first field 3): corrupt_spelling with arbitrary probabilities, exact line only.
+    input  = (3 kinds fd pm itab rtab seed () trigrams words info (pw pc))   pw = the corruption probability
+             handed to preprocessing(SpellingCorruption(Input, pw, false, Artificial(pc, 2.0, file))), pc =
+             char_edit_prob, both as f64 values (0 m e); the rest as in the second stream
+    output = (run1 run2) *)
+Definition is_spell3 (v : val) : bool := Z.eqb (v_z (v_nth 0 v)) 3.
+Definition seeded_spell3 (v : val) : val :=
+  match spell_seeded (v_wcfg v) (e2e_pf v) (v_f64w (v_nth 0 (v_nth 11 v))) (v_f64w (v_nth 1 (v_nth 11 v)))
+                     (v_seed v) (e2e_words v) with
+  | Some ws => L [list_v (fun w => list_v n_v (concat w)) ws]
+  | None => L []
+  end.
+
 (** model output = (old-model-output seeded) *)
 Definition run_C15s (v : val) : val :=
-  L [run_C15 v; if is_e2e v then seeded_e2e v else seeded_edit v].
+  if is_spell3 v then L [L []; seeded_spell3 v]
+  else L [run_C15 v; if is_e2e v then seeded_e2e v else seeded_edit v].
 
 (** one seeded result against one implementation result: same text, same exclusion set *)
 Definition step_exact (m o : val) : bool :=
@@ -399,8 +413,15 @@ Definition agree_exact (v out : val) : bool :=
 (** the executable statement on the new output shape: the old statement on the old part; e2e:
     additionally the two independent runs returned the same words (the closure is a function of
     text, seed and dictionary file) *)
+Definition words_shape (o : val) : bool :=
+  match o with L ws => forallb (fun w => match w with L _ => true | _ => false end) ws | _ => false end.
+
 Definition check_C15s (v out : val) : bool :=
-  if is_e2e v then
+  if is_spell3 v then
+    (* no panic, no more words than the text had, and the two runs agree *)
+    words_shape (v_nth 0 out) && Nat.leb (length (v_list (fun x => x) (v_nth 0 out))) (length (e2e_words v))
+    && val_eqb (v_nth 0 out) (v_nth 1 out)
+  else if is_e2e v then
     check_C15 v (old_out out) && val_eqb (v_nth 0 out) (v_nth 1 out)
   else check_C15 v (old_out out).
 
@@ -408,6 +429,7 @@ Definition check_C15s (v out : val) : bool :=
     ([rel] is [C15_Seam.agree_C15u], passed in by the extraction file) AND the exact line, the
     seeded part being read from the model output [m] = [run_C15s inp] *)
 Definition agree_C15s (rel : val -> val -> val -> bool) (inp m i : val) : bool :=
+  if is_spell3 inp then exact_e2e (v_nth 1 m) i else
   rel inp (v_nth 0 m) (old_out i) &&
   (if is_e2e inp then exact_e2e (v_nth 1 m) i
    else flags_ok inp && exact_edit (v_nth 1 m) i).
